@@ -11,10 +11,13 @@ META = {
     "C03": {"engine": "nodeput", "level": "model_checking",
             "technique": "executable TLA+ specification of the admission rules; TLC enumerates every combination of the six payment conditions x kind x key x held and is the oracle over deliveries executed on the real node (trace validation)",
             "text": "TLC enumerates all 4 paid kinds x 2^6 payment-condition vectors x key ok/other x held/not held, all unpaid kinds on both paths, and all parse classes; each case is executed on the real node "
-                    "(real quotes signed by real keys, payee closeness through the real routing table, expiry through signed timestamps, on-chain verdict through the contract stub) and the C03 clauses are evaluated by TLC on result + store delta.",
+                    "(real quotes signed by real keys, each with its own metrics and rewards address; payee closeness through the real routing table incl. the 19th / 20th / 21st closest peer; expiry through signed timestamps; "
+                    "on-chain verdict per quote through the contract stub, incl. a failing contract) and the C03 clauses are evaluated by TLC on result + store delta + the calldata the contract received. "
+                    "One-condition-at-a-time variants put the failing quote / this node's quote at every position, list a payee twice, carry two quotes of this node, or 1 / 2 / 4 / 5 quotes; "
+                    "a subset also enters through RecordStore::put and is validated from the emitted event.",
             "note": _note, "design_ref": "5 Area NodePut"},
     "C04": {"engine": "nodeput", "level": "model_checking",
-            "technique": "same enumeration; clauses StoredUnderDerivedKey / MismatchRejected / NotReadableBeforeValidation / UnparseableRefused; derived keys recomputed by the driver",
+            "technique": "same enumeration; clauses StoredUnderDerivedKey / MismatchRejected / NotReadableBeforeValidation (size limit probed at MAX_PACKET_SIZE - 1 and MAX_PACKET_SIZE) / UnparseableRefused / ValidatesPresentedRecord; derived keys recomputed by the driver",
             "text": "Every kind x path (client put, unpaid update, replication, raw kad put) x key ok/other x held x parse class is delivered to the real node; the key under which anything is stored is compared with the key the driver derives from the stored bytes itself.",
             "note": _note, "design_ref": "5 Area NodePut"},
     "C07": {"engine": "nodeput", "level": "model_checking",
